@@ -52,3 +52,5 @@ package dispatchcloud
 //@   loop 1: invariant !ok ==> forall j int :: 0 <= j && j < $i ==> !fits(mapat(cc.InstanceTypes, j), cc, ctr)
 //@   loop 1: invariant !ok ==> best.RAM == 0 && best.VCPUs == 0
 //@   loop 2: invariant len(availableTypes) == $i && cc == old(cc) && !ok && err == nil
+
+//@ lemma pdhPattern property C16: regexliteral(pdhRegexp) == `^[0-9a-f]{32}\+(\d+)$`
